@@ -780,8 +780,9 @@ def gen_status():
             "status": "translator aborted (file poisoned): " + head[:600] if failed else "regenerated from the source on this run",
             "translated": ["_rrulestr._handle_int", "_handle_int_list", "_handle_FREQ", "_handle_WKST", "_handle_UNTIL",
                            "_handle_BYWEEKDAY", "getattr dispatch table (_handle_* names and aliases)",
-                           "_parse_rfc_rrule", "_freq_map", "_weekday_map", "FREQNAMES", "rrule.__str__"],
-            "hand_modelled_ast_pinned": ["_rrulestr._parse_rfc", "_parse_date_value", "_parse_date"],
+                           "_parse_rfc_rrule", "_parse_rfc (unfold loop and TZID regex statement recognised verbatim)",
+                           "_freq_map", "_weekday_map", "FREQNAMES", "rrule.__str__"],
+            "hand_modelled_ast_pinned": ["_rrulestr._parse_date_value", "_parse_date"],
             "hand_modelled_unpinned": ["rrule.__init__ (argument processing; differential correspondence only)"]}
 
 
@@ -1104,7 +1105,7 @@ def main():
     if not props["ok"] and not verdict.violations:
         verdict.violation({"kind": "broken proof obligation" + (
             " (translator harness/gen_rstr.py aborted or a C13_gen_* obligation no longer holds: the code of "
-            "__str__ / _handle_* / _parse_rfc_rrule / _parse_rfc changed)" if props["discharged"] >= 41 or
+            "__str__ / _handle_* / _parse_rfc_rrule / _parse_rfc / _parse_date* changed)" if props["discharged"] >= 41 or
             "RstrGen" in props["log"] or "generator_failed" in props["log"] else ""),
                            "regenerated_model": gen_status().get("status"),
                            "theorem_file": "coq/props/C13.v",
